@@ -71,6 +71,13 @@ def _validate_evidence(ev):
         pass
 
 
+def _floor(fn, bucket, evaluations):
+    try:
+        return fn(bucket, evaluations)
+    except TypeError:
+        return fn(bucket)
+
+
 def replay_cmd(prop, path):
     mod = importlib.import_module(f"vp.props.{prop.lower()}")
     with open(path) as f:
@@ -207,7 +214,7 @@ def main(argv):
     for b, f in sorted(first_fail.items()):
         if kidx.lookup(b) is not None:
             continue
-        if floor is not None and floor(b) > fail_buckets[b]:
+        if floor is not None and _floor(floor, b, evaluations) > fail_buckets[b]:
             rare[b] = {"hits": fail_buckets[b], "case": f["case"], "detail": f["detail"][:300]}
             continue
         novel.append(b)
